@@ -264,36 +264,45 @@ def value_level(run, F, tier):
             if c0 + N > cap:
                 continue
             n_cases += 1
-            # ---- write
-            data = []
-            for by in range(nbytes):
-                data.append(tuple(('b', by * 8 + k) if by * 8 + k < c0 else 0 for k in range(8)) + (0,) * (bitprov.W - 8))
-            this = {'_cursor': const_bits(c0), '_buffer': {'_data': data}}
+            # ---- write: one evaluation per combination of the zero tests on data the function performs (none on today's code); a path that
+            # assumed some item bits to be zero is compared with the expected buffer under the same assumption
+            def mk_w(c0=c0):
+                d_ = []
+                for by in range(nbytes):
+                    d_.append(tuple(('b', by * 8 + k) if by * 8 + k < c0 else 0 for k in range(8)) + (0,) * (bitprov.W - 8))
+                return {'_cursor': const_bits(c0), '_buffer': {'_data': d_}}
             item = tuple(('i', k) if k < N else 0 for k in range(bitprov.W))
             try:
-                I.run(writers[N], this, [item])
+                wpaths = I.explore(writers[N], mk_w, [item], limit=256)
             except bitprov.Refuse as e:
                 raise AnalysisBroken('write<%d> at cursor %d is outside the bit-provenance fragment: %s' % (N, c0, e))
-            if bad_w is None:
+            for dec_, res_, this, zero_ in wpaths:
+                if bad_w is not None:
+                    break
+                data = this['_buffer']['_data']
                 for p in range(nbytes * 8):
-                    got = data[p // 8][p % 8]
+                    got = bitprov.assume_zero(data[p // 8][p % 8], zero_)
                     want = ('b', p) if p < c0 else (('i', p - c0) if p < c0 + N else 0)
+                    want = bitprov.assume_zero(want, zero_)
                     if got != want:
-                        bad_w = {'cursor': c0, 'buffer bit': p, 'holds': str(got), 'expected': str(want)}
+                        bad_w = {'cursor': c0, 'buffer bit': p, 'holds': str(got), 'expected': str(want), 'bits assumed zero on this path': len(zero_)}
                         break
                 if bad_w is None and to_int(this['_cursor']) != c0 + N:
                     bad_w = {'cursor': c0, 'cursor after': to_int(this['_cursor']), 'expected': c0 + N}
             # ---- read
-            data = [tuple(('b', by * 8 + k) for k in range(8)) + (0,) * (bitprov.W - 8) for by in range(nbytes)]
-            this = {'_cursor': const_bits(c0), '_buffer': {'_data': data}}
+            def mk_r(c0=c0):
+                d_ = [tuple(('b', by * 8 + k) for k in range(8)) + (0,) * (bitprov.W - 8) for by in range(nbytes)]
+                return {'_cursor': const_bits(c0), '_buffer': {'_data': d_}}
             try:
-                res = I.run(readers[N], this, [])
+                rpaths = I.explore(readers[N], mk_r, [], limit=256)
             except bitprov.Refuse as e:
                 raise AnalysisBroken('read<%d> at cursor %d is outside the bit-provenance fragment: %s' % (N, c0, e))
-            if bad_r is None:
+            for dec_, res, this, zero_ in rpaths:
+                if bad_r is not None:
+                    break
                 for j in range(item_w):
-                    want = ('b', c0 + j) if j < N else 0
-                    if res[j] != want:
+                    want = bitprov.assume_zero(('b', c0 + j) if j < N else 0, zero_)
+                    if bitprov.assume_zero(res[j], zero_) != want:
                         bad_r = {'cursor': c0, 'result bit': j, 'holds': str(res[j]), 'expected': str(want)}
                         break
                 if bad_r is None and to_int(this['_cursor']) != c0 + N:
